@@ -10,6 +10,7 @@ as well as model traces.  With `model_satisfies_spec` this gives `at_most_once_p
 `disabled_or_destructed_never_called` for every run of the model.
 -/
 import NV.C11.Props
+import NV.C11.Search
 
 namespace NV.C11
 
@@ -17,6 +18,7 @@ namespace NV.C11
 
 def seenStep (seen : List Nat) : Ev → List Nat
   | .tickBegin => []
+  | .tickOff => []
   | .beat o => o :: seen
   | _ => seen
 
@@ -25,6 +27,7 @@ def offStep (off : List Nat) : Ev → List Nat
   | .hookEnd t => t :: off
   | .shb _ t n _ => if n = 0 then t :: off else off.filter (· ≠ t)
   | .clone _ new _ _ _ => off.filter (· ≠ new)
+  | .reload _ t n _ => if n = 0 then t :: off else off.filter (· ≠ t)
   | _ => off
 
 def beatFresh (seen : List Nat) : Ev → Bool
@@ -589,6 +592,70 @@ theorem JI_step {j : JState} {seen off : List Nat} (h : JI j seen off) (e : Ev)
     split
     · exact h
     · rename_i hc; rw [if_neg hc] at hacc; exact absurd hacc (flagV_bad_ne rfl)
+  | ctx o lv tp full =>
+    refine ⟨rfl, rfl, ?_⟩
+    simp only [judge1] at hacc ⊢
+    split
+    · rename_i hc; rw [if_pos hc] at hacc; exact absurd hacc (flagV_bad_ne rfl)
+    · rename_i hc
+      rw [if_neg hc] at hacc
+      split
+      · rename_i hc2; rw [if_pos hc2] at hacc; exact absurd hacc (flagV_bad_ne rfl)
+      · rename_i hc2
+        rw [if_neg hc2] at hacc
+        split
+        · rename_i hc3; rw [if_pos hc3] at hacc; exact absurd hacc (flagV_bad_ne rfl)
+        · exact h
+  | caught o => exact ⟨rfl, rfl, h⟩
+  | reload s t n q =>
+    refine ⟨rfl, rfl, ?_⟩
+    simp only [judge1] at hacc ⊢
+    split
+    · rename_i hc; rw [if_pos hc] at hacc; exact absurd hacc (flagV_bad_ne rfl)
+    · rename_i hc
+      rw [if_neg hc] at hacc
+      have hop : opAllowed j = true := by simpa using hc
+      split
+      · rename_i hc2; rw [if_pos hc2] at hacc; exact absurd hacc (flagV_bad_ne rfl)
+      · rename_i hc2
+        rw [if_neg hc2] at hacc
+        have hne := opAllowed_ne hop
+        have hf1 := jDisable_frame j t
+        have h1 : JI (jDisable j t) seen off :=
+          JI_off_mono (JI_jDisable h t hne) (fun o ho => List.mem_cons_of_mem _ ho)
+        have hne1 : ∀ o, (jDisable j t).expect ≠ .beat o := by intro o; rw [hf1.expect]; exact hne o
+        have h2 := JI_jSet h1 t n hne1
+        have hb := (jSet_frame (jDisable j t) t n).bad
+        split
+        · exact h2
+        · rename_i hc3
+          rw [if_neg hc3] at hacc
+          exact absurd hacc (flagV_bad_ne (hb.trans hf1.bad))
+  | reloadNone s t =>
+    refine ⟨rfl, rfl, ?_⟩
+    simp only [judge1] at hacc ⊢
+    split
+    · rename_i hc; rw [if_pos hc] at hacc; exact absurd hacc (flagV_bad_ne rfl)
+    · exact h
+  | living o => exact ⟨rfl, rfl, h⟩
+  | burn o => exact ⟨rfl, rfl, h⟩
+  | tickOff =>
+    refine ⟨rfl, rfl, ?_⟩
+    simp only [judge1] at hacc ⊢
+    split
+    · rename_i hc; rw [if_pos hc] at hacc; exact absurd hacc (flagV_bad_ne rfl)
+    · refine ⟨h.nodup, ?_, h.hoff, ?_⟩
+      · intro o ho; cases ho
+      · intro o ho; cases ho
+  | tflags n => exact ⟨rfl, rfl, h⟩
+  | rp o => exact ⟨rfl, rfl, h⟩
+  | rpNone o => exact ⟨rfl, rfl, h⟩
+  | rpDone o =>
+    refine ⟨rfl, rfl, ?_⟩
+    simp only [judge1] at hacc ⊢
+    split
+    · rename_i hc; rw [if_pos hc] at hacc; exact absurd hacc (flagV_bad_ne rfl)
+    · exact ⟨h.nodup, h.hseen, h.hoff, h.exp⟩
   | junk s => exact absurd hacc (flagV_bad_ne rfl)
 
 theorem advance_bad (j : JState) : (advance j).bad = j.bad := by
@@ -678,6 +745,30 @@ theorem judge1_bad (j : JState) (e : Ev) : (judge1 j e).bad = j.bad ∨ ∃ v, (
   | topNoObj o => simp only [judge1]; split <;> first | exact Or.inl rfl | exact Or.inr ⟨_, rfl⟩
   | flag o => exact Or.inl rfl
   | hbs s l => simp only [judge1]; split <;> first | exact Or.inl rfl | exact Or.inr ⟨_, rfl⟩
+  | ctx o lv tp full =>
+    simp only [judge1]; split
+    · exact Or.inr ⟨_, rfl⟩
+    · split
+      · exact Or.inr ⟨_, rfl⟩
+      · split <;> first | exact Or.inl rfl | exact Or.inr ⟨_, rfl⟩
+  | caught o => exact Or.inl rfl
+  | reload s t n q =>
+    simp only [judge1]; split
+    · exact Or.inr ⟨_, rfl⟩
+    · split
+      · exact Or.inr ⟨_, rfl⟩
+      · have hb := ((jSet_frame (jDisable j t) t n).bad).trans (jDisable_frame j t).bad
+        split
+        · exact Or.inl hb
+        · exact Or.inr ⟨_, congrArg (List.cons _) hb⟩
+  | reloadNone s t => simp only [judge1]; split <;> first | exact Or.inl rfl | exact Or.inr ⟨_, rfl⟩
+  | living o => exact Or.inl rfl
+  | burn o => exact Or.inl rfl
+  | tickOff => simp only [judge1]; split <;> first | exact Or.inl rfl | exact Or.inr ⟨_, rfl⟩
+  | tflags n => exact Or.inl rfl
+  | rp o => exact Or.inl rfl
+  | rpNone o => exact Or.inl rfl
+  | rpDone o => simp only [judge1]; split <;> first | exact Or.inl rfl | exact Or.inr ⟨_, rfl⟩
   | junk s => exact Or.inr ⟨_, rfl⟩
 
 theorem foldl_bad_length (tr : List Ev) : ∀ j : JState, j.bad.length ≤ (tr.foldl judge1 j).bad.length := by
@@ -737,6 +828,280 @@ theorem at_most_once_per_tick (sc : Scripts) (cmds : List Cmd) (hk : Nat → Lis
 theorem disabled_or_destructed_never_called (sc : Scripts) (cmds : List Cmd) (hk : Nat → List Op := fun _ => []) :
     calledOnlyOn [] (events sc cmds hk) = true :=
   (judge_ok_implies_clauses _ (model_satisfies_spec sc cmds hk)).2
+
+/-- the oracle invariant survives every accepted trace -/
+theorem JI_foldl : ∀ (tr : List Ev) (j : JState) (seen off : List Nat), JI j seen off →
+    (tr.foldl judge1 j).bad = j.bad → ∃ seen' off', JI (tr.foldl judge1 j) seen' off' := by
+  intro tr
+  induction tr with
+  | nil => intro j seen off h _; exact ⟨seen, off, h⟩
+  | cons e r ih =>
+    intro j seen off h hacc
+    simp only [List.foldl_cons] at hacc ⊢
+    have hstep : (judge1 j e).bad = j.bad := by
+      rcases judge1_bad j e with h1 | ⟨v, h1⟩
+      · exact h1
+      · have := foldl_bad_length r (judge1 j e)
+        rw [hacc, h1] at this
+        simp at this
+        omega
+    obtain ⟨_, _, c⟩ := JI_step h e hstep
+    exact ih (judge1 j e) _ _ c (by rw [hacc, hstep])
+
+/-- **entries are unique per object** after every history of the model (append only when O_HEART_BEAT is off, removal
+    takes the entry out): no object is on heart_beats[] twice -/
+theorem hbs_nodup (sc : Scripts) (cmds : List Cmd) (hk : Nat → List Op := fun _ => []) :
+    (((runCmds sc { hooks := hk } cmds).1.hbs).map (·.ob)).Nodup := by
+  have hsim := sim_runCmds sc cmds { hooks := hk } {} (idle_init hk)
+  rw [hsim.1.hbs]
+  have hb : (((runCmds sc { hooks := hk } cmds).2).foldl judge1 {}).bad = ({} : JState).bad := hsim.2.2.2
+  obtain ⟨_, _, hji⟩ := JI_foldl _ {} [] [] JI_init hb
+  exact hji.nodup
+
+/-- **the direction of the search loop is not observable**: in every reachable state the C loop (from the back, with the
+    regenerated start value / condition / not-found test) finds the entry the model's front-to-back search finds -/
+theorem search_direction_unobservable (sc : Scripts) (cmds : List Cmd) (ob : Nat) (hk : Nat → List Op := fun _ => []) :
+    searchBack ob (runCmds sc { hooks := hk } cmds).1.hbs = idxOf ob (runCmds sc { hooks := hk } cmds).1.hbs :=
+  searchBack_eq_idxOf ob _ (hbs_nodup sc cmds hk)
+
+/-! ### a third trace-level clause (no model, no oracle state in its statement) -/
+
+/-- every `ctx` event reports a clean context: this_player() is the object itself iff it is living, else 0, and the
+    evaluation cost is untouched -/
+def ctxClean : List Ev → Bool
+  | [] => true
+  | .ctx o lv tp full :: r => (tp == ctxGiver o lv) && full && ctxClean r
+  | _ :: r => ctxClean r
+
+theorem bad_of_step {j : JState} {e : Ev} {r : List Ev} (hacc : (r.foldl judge1 (judge1 j e)).bad = j.bad) :
+    (judge1 j e).bad = j.bad := by
+  rcases judge1_bad j e with h1 | ⟨v, h1⟩
+  · exact h1
+  · have := foldl_bad_length r (judge1 j e)
+    rw [hacc, h1] at this
+    simp at this
+    omega
+
+/-- every accepted trace has only clean contexts -/
+theorem accepted_ctx_clean : ∀ (tr : List Ev) (j : JState), (tr.foldl judge1 j).bad = j.bad → ctxClean tr = true := by
+  intro tr
+  induction tr with
+  | nil => intro _ _; rfl
+  | cons e r ih =>
+    intro j hacc
+    simp only [List.foldl_cons] at hacc
+    have hstep := bad_of_step hacc
+    have hrest := ih (judge1 j e) (by rw [hacc, hstep])
+    cases e with
+    | ctx o lv tp full =>
+      simp only [ctxClean, hrest, Bool.and_true]
+      simp only [judge1] at hstep
+      split at hstep
+      · exact absurd hstep (flagV_bad_ne rfl)
+      · split at hstep
+        · exact absurd hstep (flagV_bad_ne rfl)
+        · rename_i hc2
+          split at hstep
+          · exact absurd hstep (flagV_bad_ne rfl)
+          · rename_i hc3
+            cases full <;> simp_all
+    | _ => simpa [ctxClean] using hrest
+
+/-- for implementation traces as well: what `nvdrive C11 judge` answers `ok` on has only clean contexts -/
+theorem judge_ok_implies_ctx_clean (tr : List Ev) (h : judgeEv tr = []) : ctxClean tr = true := by
+  unfold judgeEv at h
+  have hb : (tr.foldl judge1 {}).bad = ({} : JState).bad := by simpa using h
+  exact accepted_ctx_clean tr {} hb
+
+/-- **faults stay local (context).**  In every run of the model every heart_beat is entered with this_player() = the object
+    itself iff it is living (else 0) and an untouched evaluation cost - whatever earlier heart_beats enabled, used up or
+    raised -/
+theorem context_clean_every_beat (sc : Scripts) (cmds : List Cmd) (hk : Nat → List Op := fun _ => []) :
+    ctxClean (events sc cmds hk) = true :=
+  judge_ok_implies_ctx_clean _ (model_satisfies_spec sc cmds hk)
+
+example : ctxClean [.tickBegin, .beat 2, .ctx 2 false (some 3) true] = false := by decide
+example : ctxClean [.tickBegin, .beat 2, .ctx 2 true (some 2) false] = false := by decide
+example : ctxClean [.tickBegin, .beat 2, .ctx 2 true (some 2) true, .beatEnd 2, .beat 3, .ctx 3 false none true] = true := by decide
+
+/-! ### a fourth trace-level clause: no heart beat in a tick that runs without TIMER_FLAG_HEARTBEAT -/
+
+/-- in a tick that begins with `tickOff` (timer_flags without TIMER_FLAG_HEARTBEAT) nobody beats, until a later tick begins
+    with `tickBegin` -/
+def quietWhenOff (off : Bool) : List Ev → Bool
+  | [] => true
+  | .tickOff :: r => quietWhenOff true r
+  | .tickBegin :: r => quietWhenOff false r
+  | .beat _ :: r => !off && quietWhenOff off r
+  | _ :: r => quietWhenOff off r
+
+/-- oracle states that cannot accept a `beat` -/
+def quietExp : Expect → Bool
+  | .beat _ => false
+  | .inBeat => false
+  | _ => true
+
+theorem jErr1_expect (j : JState) : (jErr1 j).expect = j.expect := by
+  unfold jErr1
+  cases j.cur with
+  | none => rfl
+  | some c => exact (jDisableAlive_frame j c).expect
+
+/-- every event other than `tickBegin` and `beat` keeps the oracle in a state that cannot accept a beat -/
+theorem quiet_step (j : JState) (e : Ev) (hq : quietExp j.expect = true) (hnt : e ≠ .tickBegin) (hnb : ∀ o, e ≠ .beat o) :
+    quietExp (judge1 j e).expect = true := by
+  cases e with
+  | tickBegin => exact absurd rfl hnt
+  | beat o => exact absurd rfl (hnb o)
+  | tickEnd => simp only [judge1]; split <;> (try split) <;> rfl
+  | tickAbort => simp only [judge1]; split <;> rfl
+  | beatEnd o =>
+    simp only [judge1]
+    split
+    · rename_i hc
+      have : j.expect = .inBeat := by simpa using hc
+      rw [this] at hq; cases hq
+    · exact hq
+  | shb s t n q =>
+    simp only [judge1]
+    split
+    · exact hq
+    · split
+      · exact hq
+      · split
+        · rw [(jSet_frame j t n).expect]; exact hq
+        · show quietExp (jSet j t n).expect = true
+          rw [(jSet_frame j t n).expect]; exact hq
+  | shbDead s t n => simp only [judge1]; split <;> exact hq
+  | query s t q => simp only [judge1]; split <;> (try split) <;> exact hq
+  | queryDead s t => simp only [judge1]; split <;> exact hq
+  | dest s t =>
+    simp only [judge1]
+    split
+    · exact hq
+    · split
+      · exact hq
+      · show quietExp (jDisable j t).expect = true
+        rw [(jDisable_frame j t).expect]; exact hq
+  | destNone s t => simp only [judge1]; split <;> exact hq
+  | clone s new kind n q =>
+    simp only [judge1]
+    split
+    · exact hq
+    · split
+      · exact hq
+      · have hf1 := (jDisableAlive_frame j (if kind = 0 then 0 else 1)).expect
+        generalize jDisableAlive j (if kind = 0 then 0 else 1) = j1 at hf1 ⊢
+        have hb := (jSet_frame { j1 with known := new :: j1.known, nofn := if kind = 0 then j1.nofn else new :: j1.nofn } new n).expect
+        generalize jSet { j1 with known := new :: j1.known, nofn := if kind = 0 then j1.nofn else new :: j1.nofn } new n = j3 at hb ⊢
+        have h3 : j3.expect = j.expect := hb.trans hf1
+        split
+        · rw [h3]; exact hq
+        · show quietExp j3.expect = true
+          rw [h3]; exact hq
+  | cloneDup s new => simp only [judge1]; split <;> exact hq
+  | into i c => exact hq
+  | intoNone i c => exact hq
+  | hookGone i => simp only [judge1]; split <;> exact hq
+  | destGone s t => simp only [judge1]; split <;> exact hq
+  | hook i c => simp only [judge1]; split <;> exact hq
+  | hookEnd t =>
+    simp only [judge1]
+    split
+    · exact hq
+    · split
+      · exact hq
+      · show quietExp (jDisable j t).expect = true
+        rw [(jDisable_frame j t).expect]; exact hq
+  | err o =>
+    rw [judge1_err]
+    unfold jErr
+    split
+    · rfl
+    · rw [jErr1_expect]; exact hq
+  | topErr o => exact hq
+  | topDead o => simp only [judge1]; split <;> exact hq
+  | topNoObj o => simp only [judge1]; split <;> exact hq
+  | flag o => exact hq
+  | hbs s l => simp only [judge1]; split <;> exact hq
+  | ctx o lv tp full => simp only [judge1]; split <;> (try split) <;> (try split) <;> exact hq
+  | caught o => exact hq
+  | reload s t n q =>
+    simp only [judge1]
+    split
+    · exact hq
+    · split
+      · exact hq
+      · have h3 : (jSet (jDisable j t) t n).expect = j.expect :=
+          ((jSet_frame (jDisable j t) t n).expect).trans (jDisable_frame j t).expect
+        split
+        · rw [h3]; exact hq
+        · show quietExp (jSet (jDisable j t) t n).expect = true
+          rw [h3]; exact hq
+  | reloadNone s t => simp only [judge1]; split <;> exact hq
+  | living o => exact hq
+  | burn o => exact hq
+  | tickOff => simp only [judge1]; split <;> first | exact hq | rfl
+  | tflags n => exact hq
+  | rp o => exact hq
+  | rpNone o => exact hq
+  | rpDone o => simp only [judge1]; split <;> exact hq
+  | junk s => exact hq
+
+/-- every accepted trace is quiet in the ticks that run without TIMER_FLAG_HEARTBEAT -/
+theorem accepted_quiet_when_off : ∀ (tr : List Ev) (j : JState) (off : Bool), (off = true → quietExp j.expect = true) →
+    (tr.foldl judge1 j).bad = j.bad → quietWhenOff off tr = true := by
+  intro tr
+  induction tr with
+  | nil => intro _ _ _ _; rfl
+  | cons e r ih =>
+    intro j off hinv hacc
+    simp only [List.foldl_cons] at hacc
+    have hstep := bad_of_step hacc
+    have hacc' : (r.foldl judge1 (judge1 j e)).bad = (judge1 j e).bad := by rw [hacc, hstep]
+    by_cases hb : ∃ o, e = .beat o
+    · obtain ⟨o, rfl⟩ := hb
+      have hex := (beat_accepted_iff j o).mp hstep
+      have hoff : off = false := by
+        cases off with
+        | false => rfl
+        | true => have := hinv rfl; rw [hex] at this; cases this
+      subst hoff
+      simp only [quietWhenOff, Bool.not_false, Bool.true_and]
+      exact ih _ false (fun h => by cases h) hacc'
+    · have hnb : ∀ o, e ≠ .beat o := fun o h => hb ⟨o, h⟩
+      by_cases ht : e = .tickBegin
+      · subst ht
+        simp only [quietWhenOff]
+        exact ih _ false (fun h => by cases h) hacc'
+      · by_cases hto : e = .tickOff
+        · subst hto
+          simp only [quietWhenOff]
+          apply ih _ true _ hacc'
+          intro _
+          simp only [judge1] at hstep ⊢
+          split
+          · rename_i hc; rw [if_pos hc] at hstep; exact absurd hstep (flagV_bad_ne rfl)
+          · rfl
+        · have hkeep : quietWhenOff off (e :: r) = quietWhenOff off r := by
+            cases e <;> first | rfl | exact absurd rfl ht | exact absurd rfl hto | exact absurd rfl (hnb _)
+          rw [hkeep]
+          exact ih _ off (fun h => quiet_step j e (hinv h) ht hnb) hacc'
+
+/-- for implementation traces as well -/
+theorem judge_ok_implies_quiet_when_off (tr : List Ev) (h : judgeEv tr = []) : quietWhenOff false tr = true := by
+  unfold judgeEv at h
+  have hb : (tr.foldl judge1 {}).bad = ({} : JState).bad := by simpa using h
+  exact accepted_quiet_when_off tr {} false (fun h => by cases h) hb
+
+/-- **no heart beat without TIMER_FLAG_HEARTBEAT.**  In every run of the model no heart_beat runs in a tick during which
+    timer_flags lacks the bit - whatever is on the list and whatever the cursor variables hold -/
+theorem no_beat_while_heart_beats_off (sc : Scripts) (cmds : List Cmd) (hk : Nat → List Op := fun _ => []) :
+    quietWhenOff false (events sc cmds hk) = true :=
+  judge_ok_implies_quiet_when_off _ (model_satisfies_spec sc cmds hk)
+
+example : quietWhenOff false [.tickOff, .beat 2] = false := by decide
+example : quietWhenOff false [.tickOff, .tickEnd, .tickBegin, .beat 2] = true := by decide
 
 -- non-vacuity: the predicates reject what they should
 example : beatsOnce [] [.tickBegin, .beat 2, .beatEnd 2, .beat 2] = false := by decide
